@@ -47,7 +47,7 @@ func tlsConfigs() (*tls.Config, *tls.Config, error) {
 			SerialNumber: big.NewInt(41),
 			Subject:      pkix.Name{CommonName: "c41"},
 			NotBefore:    time.Unix(0, 0),
-			NotAfter:     time.Unix(1<<40, 0),
+			NotAfter:     time.Unix(4102444800, 0), // 2100-01-01
 			KeyUsage:     x509.KeyUsageDigitalSignature,
 			ExtKeyUsage:  []x509.ExtKeyUsage{x509.ExtKeyUsageServerAuth, x509.ExtKeyUsageClientAuth},
 			IPAddresses:  []net.IP{net.IPv4(127, 0, 0, 1)},
